@@ -208,3 +208,10 @@ Section Slice.
     intros Hi. split; auto. rewrite (A2 Hi), map_length. auto.
   Qed.
 End Slice.
+
+(** ** the fold of mergeTypeRefs in the model's own terms: no dependence on the order, failure included *)
+Theorem merge_trefs_perm : forall i t l t' l', Permutation (t :: l) (t' :: l') ->
+  merge_trefs i t l = merge_trefs i t' l'.
+Proof.
+  intros i t l t' l' H. rewrite !merge_trefs_ofold. apply (merge_trefs_perm_full i (t :: l) (t' :: l') H).
+Qed.
